@@ -388,14 +388,15 @@ Inductive vop :=
 | VEmpThrow (d : nat)              (* v.emplace<Thrower>(...) throws *)
 | VCp (d s : nat) | VMv (d s : nat) | VSwap (d s : nat) | VCc (d s : nat) | VMc (d s : nat)
 | VIdx (d : nat) | VHolds (d : nat) (i : Z) | VGet (d : nat) (i : Z) | VGetIf (d : nat) (i : Z)
-| VVis (d : nat) | VVis2 (d s : nat) | VCmp (d s : nat).
+| VVis (d : nat) | VVis2 (d s : nat) | VCmp (d s : nat)
+| VSelf (d : nat).                (* v = get<index>(v): assignment from a reference to its own held value *)
 
 Definition NV : nat := 3.
 Definition vst := nat -> vval.
 Definition vinit : vst := fun _ => VMono.
 Definition vvalid (op : vop) : bool :=
   match op with
-  | VSet d _ | VEmp d _ | VEmpThrow d | VIdx d | VHolds d _ | VGet d _ | VGetIf d _ | VVis d => Nat.ltb d NV
+  | VSet d _ | VEmp d _ | VEmpThrow d | VIdx d | VHolds d _ | VGet d _ | VGetIf d _ | VVis d | VSelf d => Nat.ltb d NV
   | VCp d s | VSwap d s | VVis2 d s | VCmp d s => Nat.ltb d NV && Nat.ltb s NV
   | VMv d s | VCc d s | VMc d s => Nat.ltb d NV && Nat.ltb s NV && negb (Nat.eqb d s)
   end.
@@ -408,6 +409,7 @@ Definition vexec (st : vst) (op : vop) : vst * list tok :=
   | VCp d s | VCc d s => (upd st d (st s), [])
   | VMv d s | VMc d s => (upd (upd st d (st s)) s (moved_from (st s)), [])
   | VSwap d s => (upd (upd st d (st s)) s (st d), [])
+  | VSelf d => (st, [])
   | VIdx d => (st, [TZ (vindex (st d)); tbool (Z.eqb (vindex (st d)) (-1))])
   | VHolds d i => (st, [tbool (vholds (st d) i)])
   | VGet d i => (st, opt_toks (option_map vval_toks (vget (st d) i)) "BAD")
